@@ -441,6 +441,54 @@ def random_xc(rng, nprng, cls=None, d=None, maxatoms=10, redescribe=0.5, rotate=
     return x
 
 
+# ----------------------------------------------------------------------------- vector spins
+def vector_spin_crystal(rng, nprng, d=None):
+    """crystal whose atoms carry VECTOR spins: one or two species, each an orbit K.x of a random subgroup K of the
+    holohedry with x generic (trivial stabiliser), spin of the atom R.x one of
+      'covariant'  C_R s0        (every R in K is then a symmetry, with phase +1)
+      'contra'     C_R^-1 s0     (winds against the positions: n-fold rotations of K are in general NOT symmetries)
+      'collinear'  +-s0,  'random'
+    Returns (lattice, basis(list of list of float arrays), spins, known_rots or None, description)"""
+    if d is None: d = 3 if rng.random() < 0.7 else 2
+    cls = rng.choice(['cubicP', 'tetP', 'hexP', 'orthoP', 'rhomb', 'cubicF'] if d == 3 else ['square', 'hex2', 'rect'])
+    g = bravais(rng, cls)
+    H = holohedry(g)
+    L = lattice_from_metric(g)
+    if rng.random() < 0.5: L = rand_rotation(nprng, d) @ L
+    Li = np.linalg.inv(L)
+    for _ in range(30):
+        K = closure([rng.choice(H) for _ in range(rng.choice((1, 1, 2)))], d)
+        if 2 <= len(K) <= 8: break
+    else:
+        K = closure([], d)
+    mode = rng.choice(('covariant', 'contra', 'collinear', 'random', 'covariant', 'contra'))
+    nsp = rng.choice((1, 1, 2))
+    basis, spins, pts = [], [], []
+    for sp in range(nsp):
+        x = rand_site(rng, d, False)
+        s0 = nprng.normal(size=d); s0 /= np.linalg.norm(s0)
+        atoms, sl = [], []
+        for R in K:
+            y = tuple(frac1(sum(Fr(R[i][j]) * x[j] for j in range(d))) for i in range(d))
+            if y in pts: continue
+            pts.append(y)
+            C = L @ np.array(R, dtype=float) @ Li
+            atoms.append(np.array([float(t) for t in y]))
+            if mode == 'covariant': sl.append(C @ s0)
+            elif mode == 'contra': sl.append(C.T @ s0)
+            elif mode == 'collinear': sl.append(s0 * rng.choice((1, -1)))
+            else:
+                v = nprng.normal(size=d); sl.append(v / np.linalg.norm(v))
+        basis.append(atoms); spins.append(sl)
+    if not far_enough([[tuple(Fr(float(t)).limit_denominator(10 ** 6) for t in u) for u in a] for a in basis], d):
+        return vector_spin_crystal(rng, nprng, d)
+    known = sorted(K) if (mode == 'covariant' and all(len(a) == len(K) for a in basis)) else None
+    desc = dict(cls=cls, d=d, mode=mode, order_K=len(K), lattice_columns=L.T.tolist(),
+                basis=[[u.tolist() for u in a] for a in basis], spins=[[v.tolist() for v in sl] for sl in spins],
+                how='crystal.Crystal(np.array(lattice_columns).T, [[np.array(u) ...]], spins=[[np.array(s) ...]])')
+    return L, basis, spins, known, desc
+
+
 # ----------------------------------------------------------------------------- zoo
 def zoo():
     F = Fr
@@ -627,6 +675,7 @@ def oracle_ops(crys, tol=1e-7):
             bad.append(('indexmap-shape', 'indexmap has %d species, crystal %d' % (len(g.indexmap), len(crys.basis))))
             continue
         phases = set()
+        vector_spins = False
         for c, atoms in enumerate(crys.basis):
             im = g.indexmap[c]
             if sorted(im) != list(range(len(atoms))):
@@ -638,7 +687,9 @@ def oracle_ops(crys, tol=1e-7):
                 if res > tol:
                     bad.append(('atom-not-mapped', 'rot %s trans %s: atom (%d,%d) does not land on atom (%d,%d): residual %.2e'
                                 % (R.tolist(), g.trans.tolist(), c, i, c, im[i], res)))
-                if spins is not None:
+                if spins is not None and np.ndim(spins[c][i]) > 0:
+                    vector_spins = True
+                elif spins is not None:
                     s0, s1 = spins[c][i], spins[c][im[i]]
                     if abs(s0) > tol or abs(s1) > tol:
                         if abs(abs(s0) - abs(s1)) > tol:
@@ -647,6 +698,18 @@ def oracle_ops(crys, tol=1e-7):
                             phases.add(int(round(float(np.real(s1 / s0)))))
         if len(phases) > 1:
             bad.append(('spin-phase-inconsistent', 'rot %s maps some spins with +1 and some with -1' % (R.tolist(),)))
+        if vector_spins and all(sorted(g.indexmap[c]) == list(range(len(a))) for c, a in enumerate(crys.basis)):
+            # vector spins: the spin of every atom, rotated by the Cartesian rotation (as the source does), must be the
+            # spin of its image, up to ONE global sign (the "phase" the source tries)
+            ok = False
+            for phase in (1, -1):
+                if all(np.allclose(phase * (C @ np.asarray(spins[c][i], dtype=float)),
+                                   np.asarray(spins[c][g.indexmap[c][i]], dtype=float), atol=tol)
+                       for c, atoms in enumerate(crys.basis) for i in range(len(atoms))):
+                    ok = True
+            if not ok:
+                bad.append(('vector-spin-not-preserved', 'rot %s (cartesian %s): no sign +-1 makes the rotated spin of every atom '
+                            'equal to the spin of its image' % (R.tolist(), np.round(C, 4).tolist())))
     return bad
 
 
